@@ -6,6 +6,7 @@ import (
 	"os"
 	"path/filepath"
 	"strings"
+	"sync/atomic"
 	"time"
 
 	"github.com/klev-dev/klevdb"
@@ -130,8 +131,8 @@ type bActor struct {
 	gid    int64
 	done   chan struct{}
 	// cancel bookkeeping
-	cancelCall int64
-	cancelled  bool
+	cancelCall atomic.Int64
+	cancelled  atomic.Bool
 	rawErr     error
 	atNext     int64 // NextOffset known when the waiter was created (sequentially)
 }
@@ -351,7 +352,7 @@ func (br *bRun) judge(replay map[string]any, finalNext int64, closeOp *cOp) bool
 					}
 				}
 			}
-			if a.cancelled && a.cancelCall < o.Ret {
+			if a.cancelled.Load() && a.cancelCall.Load() < o.Ret {
 				woken = true
 			}
 			if !woken {
@@ -363,7 +364,7 @@ func (br *bRun) judge(replay map[string]any, finalNext int64, closeOp *cOp) bool
 		switch {
 		case o.Err == "":
 		case o.Err == "ctx-canceled":
-			if !a.cancelled {
+			if !a.cancelled.Load() {
 				return report("error:ctx-error-without-cancel", fmt.Sprintf("%s returned a context error but its context was never cancelled", o))
 			}
 		case o.Err == "ErrInvalidOffset":
@@ -381,7 +382,7 @@ func (br *bRun) judge(replay map[string]any, finalNext int64, closeOp *cOp) bool
 			return report("error:"+o.Err, fmt.Sprintf("%s failed: %s", o, o.ErrText))
 		}
 		// a cancelled context yields its error unless a wake raced with it
-		if a.cancelled && o.Err == "" && a.cancelCall < o.Call {
+		if a.cancelled.Load() && o.Err == "" && a.cancelCall.Load() < o.Call {
 			return report("cancel:ignored", fmt.Sprintf("%s was invoked with an already cancelled context at/after NextOffset and returned without error", o))
 		}
 	}
@@ -444,15 +445,15 @@ func (br *bRun) quiesce(replay map[string]any, finalNext int64, closeReturned bo
 				replay["goroutine"] = st
 				br.rep.Report(Violation{Property: "C18", Sig: "concmon|lost-wake:" + a.offCls, What: fmt.Sprintf("after every publisher returned, waiter %s is still parked in notify.Wait although %s: the wake-up was lost", a.op, why), Replay: replay})
 				// unblock it so the goroutine does not leak
-				a.cancelCall = nowNS()
-				a.cancelled = true
+				a.cancelCall.Store(nowNS())
+				a.cancelled.Store(true)
 				a.cancel()
 				settle(a, 20000)
 				return false
 			}
 			br.cov.Add("c18.stayed_blocked", 1)
-			a.cancelCall = nowNS()
-			a.cancelled = true
+			a.cancelCall.Store(nowNS())
+			a.cancelled.Store(true)
 			a.cancel()
 			if settle(a, 20000) != "done" {
 				br.rep.Inconclusive("cancelled waiter did not return")
@@ -664,14 +665,14 @@ func runBScenario(cfg *RunCfg, rep *Reporter, cov *Cov, idx int, sc bScenario) {
 		case "cancel":
 			// cancel the first waiter that has not returned
 			for _, w := range br.actors {
-				if w.kind == "waiter" && !w.cancelled {
+				if w.kind == "waiter" && !w.cancelled.Load() {
 					select {
 					case <-w.done:
 						continue
 					default:
 					}
-					w.cancelCall = nowNS()
-					w.cancelled = true
+					w.cancelCall.Store(nowNS())
+					w.cancelled.Store(true)
 					w.cancel()
 					break
 				}
@@ -804,8 +805,8 @@ func runBPerturb(cfg *RunCfg, rep *Reporter, cov *Cov, idx int) {
 			if cancelAfter > 0 {
 				go func() {
 					time.Sleep(cancelAfter)
-					a.cancelCall = nowNS()
-					a.cancelled = true
+					a.cancelCall.Store(nowNS())
+					a.cancelled.Store(true)
 					a.cancel()
 				}()
 			}
